@@ -32,7 +32,7 @@ def gen_case(rng):
     dims = rng.sample(gen.DIMS, nd)
     sizes = [rng.randint(1, 5) for _ in dims]
     dt = rng.choice('fi')
-    sp = gen.spec(rng, dims=dims, sizes=sizes, dtype=dt)
+    sp = gen.spec(rng, dims=dims, sizes=sizes, dtype=dt, narrow=True)
     k = rng.randrange(nd)
     c = {"what": what, "a": sp, "k": k, "by_pos": rng.random() < 0.5}
     if what == 'cumprod':
